@@ -141,7 +141,14 @@ Cfg(k) == <<k.network, k.wt, k.ms>>
 SerP(k, compressed) == IF compressed THEN <<2 + (k.y[32] % 2)>> \o k.x ELSE <<4>> \o k.x \o k.y
 
 PrivFmts == {"hex", "hex01", "bytes", "bytes01", "int", "dec", "wif", "xprv", "bip38"}
-PubFmts  == {"pubhex", "pubbytes", "point", "xpub"}
+\* "pubhex" / "pubbytes" follow the key's compression flag; the _c / _u forms are the compressed / uncompressed
+\* encodings asked for explicitly (every public key has both: y is determined by x and the parity byte).
+\* Views that are not importable on their own: px / py (the coordinates as integers), d_* (the same values read from
+\* the dictionary view of the key), addr_u (the P2PKH address of the uncompressed encoding).
+ConvFmts == {"pubhex_c", "pubhex_u", "pubbytes_c", "pubbytes_u"}
+ViewFmts == {"px", "py", "d_pubhex", "d_pubhex_u", "d_px", "d_py", "addr_u"}
+CoreFmts == PrivFmts \cup {"pubhex", "pubbytes", "point", "xpub"}
+PubFmts  == {"pubhex", "pubbytes", "point", "xpub"} \cup ConvFmts \cup ViewFmts
 Fmts     == PrivFmts \cup PubFmts
 ExtFmts  == {"xprv", "xpub"}
 SelfDescribing == {"wif", "xprv", "xpub", "bip38"}
@@ -184,7 +191,14 @@ Export(k, fmt) ==
       [] fmt = "wif"      -> Repr("b58c", WifPayload(k), <<>>)
       [] fmt = "xprv"     -> Repr("b58c", XPayload(k, TRUE), <<>>)
       [] fmt = "xpub"     -> Repr("b58c", XPayload(k, FALSE), <<>>)
-      [] fmt = "pubhex"   -> Repr("str", HexStr(SerP(k, k.compressed)), <<>>)
+      [] fmt \in {"pubhex", "d_pubhex"}     -> Repr("str", HexStr(SerP(k, k.compressed)), <<>>)
+      [] fmt = "pubhex_c"   -> Repr("str", HexStr(SerP(k, TRUE)), <<>>)
+      [] fmt \in {"pubhex_u", "d_pubhex_u"} -> Repr("str", HexStr(SerP(k, FALSE)), <<>>)
+      [] fmt = "pubbytes_c" -> Repr("bytes", SerP(k, TRUE), <<>>)
+      [] fmt = "pubbytes_u" -> Repr("bytes", SerP(k, FALSE), <<>>)
+      [] fmt \in {"px", "d_px"} -> Repr("int", TrimLead(k.x), <<>>)
+      [] fmt \in {"py", "d_py"} -> Repr("int", TrimLead(k.y), <<>>)
+      [] fmt = "addr_u"     -> Repr("hash160", SerP(k, FALSE), <<>>)   \* the bytes to be hashed; string form: AddrUEnvelope
       [] fmt = "pubbytes" -> Repr("bytes", SerP(k, k.compressed), <<>>)
       [] fmt = "point"    -> Repr("point", k.x, k.y)
       [] fmt = "bip38"    -> Repr("opaque", <<>>, <<>>)      \* content is C15's subject; envelope: Bip38Envelope
@@ -217,6 +231,8 @@ DecSupported(k) == Len(DecStr(k.secret)) >= 71
 \* compression flag after import: "T" / "F" when the representation (or the hint) fixes it, "any" otherwise
 ExpectComp(k, fmt, h) ==
     CASE fmt \in {"hex01", "bytes01"}                 -> "T"
+      [] fmt \in {"pubhex_c", "pubbytes_c"}           -> "T"
+      [] fmt \in {"pubhex_u", "pubbytes_u"}           -> "F"
       [] fmt \in {"wif", "pubhex", "pubbytes", "bip38"} -> IF k.compressed THEN "T" ELSE "F"
       [] fmt = "xpub"                                 -> IF k.compressed THEN "T" ELSE "any"   \* BIP32 has compressed points only
       [] OTHER                                        -> IF h.comp THEN (IF k.compressed THEN "T" ELSE "F") ELSE "any"
@@ -230,6 +246,61 @@ Allowed(k, fmt, h) ==
         /\ h.ms  => c[3] = k.ms
         /\ fmt \in ExtFmts => Defined(c) /\ XVersion(c, FmtPrivate(fmt)) = XVersion(Cfg(k), FmtPrivate(fmt))
         /\ fmt = "wif" => WifVersion(c[1]) = WifVersion(k.network) }
+(* ------------------------------------------------------------------------ *)
+(* Routes: how the key object that is exported came about.  The abstract key *)
+(* of the object is a function of the key it was made from: a public-only    *)
+(* object made by importing any public representation, by public() of a      *)
+(* private key or by import of an extended public key denotes the same point *)
+(* and must give every public export of that point.                          *)
+(* ------------------------------------------------------------------------ *)
+\* rt = [r, fmt, ep]: r = "import": the object is the import of Export(k, rt.fmt) at entry point rt.ep ("key" | "hd")
+\* with all hints; "public": public() of the key's object; anything else: the key's own object
+Routed(k, rt) ==
+    CASE rt.r = "import" ->
+           LET p   == FmtPrivate(rt.fmt)
+               ext == rt.fmt \in ExtFmts
+           IN [k EXCEPT !.priv = p, !.secret = IF p THEN k.secret ELSE <<>>,
+                        !.compressed = (ExpectComp(k, rt.fmt, AllHints) # "F"),
+                        !.hd = (rt.ep = "hd"),
+                        \* a representation without chain data gives depth 0, child number 0, no parent, zero chain code
+                        !.depth = IF ext THEN k.depth ELSE 0,
+                        !.index = IF ext THEN k.index ELSE <<0, 0, 0, 0>>,
+                        !.fp = IF ext THEN k.fp ELSE <<0, 0, 0, 0>>,
+                        !.chain = IF ext THEN k.chain ELSE Rep(0, 32)]
+      [] rt.r = "public" -> [k EXCEPT !.priv = FALSE, !.secret = <<>>]
+      [] OTHER -> k
+
+\* Value classes the conformance check has to cover (where fixed-width fields lose digits): leading zero nibble / byte
+\* of x, of y and of the secret, both parities of y
+ValueClasses(k) ==
+    {IF k.y[32] % 2 = 0 THEN "y-even" ELSE "y-odd"}
+    \cup (IF k.y[1] < 16 THEN {"y-zero-nibble"} ELSE {}) \cup (IF k.y[1] = 0 THEN {"y-zero-byte"} ELSE {})
+    \cup (IF k.x[1] < 16 THEN {"x-zero-nibble"} ELSE {}) \cup (IF k.x[1] = 0 THEN {"x-zero-byte"} ELSE {})
+    \cup (IF k.priv /\ k.secret[1] = 0 THEN {"secret-zero-byte"} ELSE {})
+PointClasses == {"y-even", "y-odd", "y-zero-nibble", "y-zero-byte", "x-zero-nibble", "x-zero-byte"}
+\* routes by which a public-only object is reached; every point class has to occur on every one of them
+PubRoutes == {"import:pubhex_c", "import:pubbytes_c", "import:pubhex_u", "import:pubbytes_u", "import:point", "import:xpub",
+              "public", "child"}
+\* every extended private version (per family, witness type, multisig) has to be exported for a secret with a leading
+\* zero byte
+FamilyConfigs == {<<Family(c[1]), c[2], c[3]>> : c \in DefConfigs}
+ConfigName(f) == f[1] \o "/" \o f[2] \o (IF f[3] THEN "/multisig" ELSE "/single")
+RequiredCover == {<<r, c>> : r \in PubRoutes, c \in PointClasses}
+                 \cup {<<"xprv", ConfigName(f)>> : f \in FamilyConfigs}
+
+\* P2PKH version bytes
+AddrVersion(n) == CASE Family(n) = "btc"   -> 0
+                    [] Family(n) = "tbtc"  -> 111
+                    [] Family(n) = "ltc"   -> 48
+                    [] Family(n) = "tltc"  -> 111
+                    [] Family(n) = "doge"  -> 30
+                    [] Family(n) = "tdoge" -> 113
+                    [] Family(n) = "blt"   -> 144
+\* the uncompressed P2PKH address: Base58 of version, hash160 of the uncompressed encoding (h: oracle), four check bytes
+\* (their value is C11's subject)
+AddrUEnvelope(s, k, h) ==
+    LET d == KB58Decode(s) IN d.ok /\ Len(d.b) = 25 /\ SubSeq(d.b, 1, 21) = <<AddrVersion(k.network)>> \o h
+
 AllowedNets(k, fmt, h) == {c[1] : c \in Allowed(k, fmt, h)}
 
 \* entry points: "key" / "keyfw" build a plain key (no witness type, multisig, chain data), "hd" / "hdfw" an HD key
